@@ -38,7 +38,7 @@ def _map_facts(chk, cls, mname):
     c = dots[0]
     mat = None
     for opnd in dot_operands(c):
-        for p in ff.paths(opnd, spine_only=True):
+        for p in ff.paths(opnd, spine_only=True, follow=True):
             if p.atom.kind == "selfattr" and p.atom.name in ("self.T", "self.Tinv", "self.V"):
                 nT = sum(1 for o in p.ops if (o.kind == "attr" and o.name == "T") or (o.kind == "method" and o.name == "transpose"))
                 mat = (p.atom.name.split(".")[1], conj_parity(p), nT % 2)
@@ -46,7 +46,7 @@ def _map_facts(chk, cls, mname):
     d = dot_dims(c)
     dim_src = None
     if d is not None:
-        ps = ff.paths(d, spine_only=True)
+        ps = ff.paths(d, spine_only=True, follow=True)
         if any(p.atom.kind == "selfattr" and p.atom.name == "self.feature_name" for p in ps):
             dim_src = "feature"
         elif any(p.atom.kind == "const" for p in ps):
@@ -54,18 +54,18 @@ def _map_facts(chk, cls, mname):
     # the contraction dimension is CARRIED by both operands: a fresh helper name (dummy_dim) must be given to both by a
     # rename, "mode" must be given to the data operand (whose native dimensions are sample x feature) by a rename
     def renamed_to(opnd, name: str) -> bool:
-        for p in ff.paths(opnd, spine_only=True):
+        for p in ff.paths(opnd, spine_only=True, follow=True):
             for o in p.ops:
                 if o.kind == "method" and o.name == "rename" and o.node.args and isinstance(o.node.args[0], ast.Dict):
                     for v in o.node.args[0].values:
-                        if any(q.atom.kind == "const" and q.atom.name.strip("'\"") == name for q in ff.paths(v, spine_only=True)):
+                        if any(q.atom.kind == "const" and q.atom.name.strip("'\"") == name for q in ff.eval_in(o.frame, v, spine_only=True)):
                             return True
         return False
 
     if dim_src not in (None, "feature"):
         opnds = dot_operands(c)
         for opnd in opnds:
-            is_matrix = any(p.atom.kind == "selfattr" and p.atom.name in ("self.T", "self.Tinv", "self.V") for p in ff.paths(opnd, spine_only=True))
+            is_matrix = any(p.atom.kind == "selfattr" and p.atom.name in ("self.T", "self.Tinv", "self.V") for p in ff.paths(opnd, spine_only=True, follow=True))
             need = (dim_src != "mode") or not is_matrix
             if need:
                 chk.check(renamed_to(opnd, dim_src), "ADJOINT.dims.carried", fn, opnd, construct=f"{cls.name}.{mname}: operand {norm(opnd)[:40]} carries the contraction dimension {dim_src!r}",
@@ -173,20 +173,23 @@ def _kernel(chk, wh):
             t1, c1, b1 = _operand_chain(ops[1])
             okg = t0 and c0 and not t1 and norm(b0) == norm(b1)
     chk.check(okg, "ADJOINT.rebuild.gram", fn, g, why="the covariance must be the Gram matrix X^H X of the data")
-    # Tinv from T
-    tname = None
-    for st in ff.statements():
-        if isinstance(st, ast.Assign) and st.value is c and isinstance(st.targets[0], ast.Name):
-            tname = st.targets[0].id
-    chk.require(tname is not None, "Whitener kernel: result of _fractional_matrix_power is not bound to a name")
-    invs = [x for x in ff.calls() if (dotted(x.func) or "").split(".")[-1] in ("inv", "pinv")]
-    chk.require(len(invs) >= 1, "Whitener kernel: inverse computation vanished")
-    for x in invs:
-        ok = bool(x.args) and isinstance(x.args[0], ast.Name) and x.args[0].id == tname
-        chk.check(ok, "ADJOINT.inverse", fn, x, why=f"the stored inverse must be computed from the whitening matrix {tname} itself")
-    rets = returns_of(fn)
-    okr = any(isinstance(r.value, ast.Tuple) and len(r.value.elts) == 2 and norm(r.value.elts[0]) == tname and norm(r.value.elts[1]) != tname for r in rets)
-    chk.check(okr, "ADJOINT.inverse.order", fn, rets[0], why="the kernel must return (T, Tinv) in this order")
+    # the kernel returns (T, inverse of that very T): provenance of the two returned values (helpers followed)
+    rets = [r for r in returns_of(fn) if isinstance(r.value, ast.Tuple) and len(r.value.elts) == 2]
+    chk.require(len(rets) >= 1, "Whitener kernel: no longer returns a pair (T, Tinv)")
+    is_inv = lambda o: o.kind == "arg" and o.name.split(".")[-1] in ("inv", "pinv")
+    for r in rets:
+        p0 = [p for p in ff.paths(r.value.elts[0], spine_only=True, follow=True) if p.atom.kind == "call" and p.atom.node is c]
+        p1 = [p for p in ff.paths(r.value.elts[1], spine_only=True, follow=True) if p.atom.kind == "call" and p.atom.node is c]
+        inv_nodes = [o.node for p in p1 for o in p.ops if is_inv(o)]
+        all1 = ff.paths(r.value.elts[1], spine_only=True, follow=True)
+        # whatever is inverted is the result of _fractional_matrix_power (the call itself or a value that passed through it)
+        via_T = all((p.atom.kind == "call" and p.atom.node is c) or any(o.kind == "arg" and o.node is c for o in p.ops[: [i for i, o in enumerate(p.ops) if is_inv(o)][0]])
+                    for p in all1 if any(is_inv(o) for o in p.ops))
+        chk.check(bool(p1) and all(any(is_inv(o) for o in p.ops) for p in p1) and via_T, "ADJOINT.inverse", fn, inv_nodes[0] if inv_nodes else r,
+                  construct="second returned matrix = inv / pinv of the whitening matrix",
+                  why="the stored inverse must be computed from the whitening matrix itself (np.linalg.inv / pinv of the result of _fractional_matrix_power)")
+        chk.check(bool(p0) and not any(is_inv(o) for p in p0 for o in p.ops), "ADJOINT.inverse.order", fn, r,
+                  construct="first returned matrix = the whitening matrix", why="the kernel must return (T, Tinv) in this order")
     fit = wh.methods["fit"]
     ffit = FuncFacts.of(fit)
     tgt = [st for st in ffit.statements() if isinstance(st, ast.Assign) and isinstance(st.targets[0], ast.Tuple)
@@ -202,13 +205,15 @@ def _kernel(chk, wh):
     chk.require(len(au) == 1, "Whitener._compute_whitener_transform: apply_ufunc call vanished")
     from .common import call_kwargs as _ck, inline_locals as _il
     oc = _ck(au[0]).get("output_core_dims")
-    oc = _il(cwf, oc) if oc is not None else None
+    oc = _il(cwf, oc) if isinstance(oc, ast.Name) else oc
     lab = []
     if isinstance(oc, (ast.List, ast.Tuple)):
         for e in oc.elts:
             row = []
             for x in (e.elts if isinstance(e, (ast.List, ast.Tuple)) else []):
                 xs = {p.atom.name for p in cwf.paths(x, spine_only=True)} if not isinstance(x, ast.Constant) else {repr(x.value)}
+                if is_self_attr(x):
+                    xs.add("self." + x.attr)
                 row.append("feature" if "self.feature_name" in xs else "mode" if xs == {"'mode'"} else "?")
             lab.append(row)
     chk.check(lab == [["feature", "mode"], ["mode", "feature"]], "ADJOINT.inverse.labels", cw, au[0], construct="kernel outputs labelled T: (feature, mode), Tinv: (mode, feature)",
